@@ -17,3 +17,57 @@ impl crate::v1::Behaviour {
         super::AsServer::filter_valid_addrs(peer, demanded, observed_remote_at)
     }
 }
+
+// ---- server path (throttling): constructors for the inbound request-response handler event whose
+// request / response types live in the private `protocol` module, and a read-only view of the
+// server-side bookkeeping for state de-duplication.
+
+/// What happened to the response channel of an injected inbound request: `None` = nothing sent
+/// yet, `Some(None)` = the channel was dropped without a response, `Some(Some(result))` = sent.
+type VerifResponse = Option<Option<Result<Multiaddr, crate::v1::ResponseError>>>;
+
+impl crate::v1::Behaviour {
+    /// The handler event for the `n`-th inbound `DialRequest` of a connection, and a probe for
+    /// the answer written to its response channel.
+    #[doc(hidden)]
+    #[allow(clippy::type_complexity)]
+    pub fn verif_inbound_request(
+        n: u64,
+        claimed_peer: PeerId,
+        addresses: Vec<Multiaddr>,
+    ) -> (
+        libp2p_swarm::THandlerOutEvent<crate::v1::Behaviour>,
+        Box<dyn FnMut() -> VerifResponse>,
+    ) {
+        let (sender, mut receiver) =
+            futures::channel::oneshot::channel::<crate::v1::protocol::DialResponse>();
+        let event = libp2p_swarm::THandlerOutEvent::<crate::v1::Behaviour>::Request {
+            request_id: libp2p_request_response::verif_proto_a::inbound_request_id(n),
+            request: crate::v1::protocol::DialRequest {
+                peer_id: claimed_peer,
+                addresses,
+            },
+            sender,
+        };
+        let probe = Box::new(move || match receiver.try_recv() {
+            Ok(Some(r)) => Some(Some(r.result)),
+            Ok(None) => None,
+            Err(_) => Some(None),
+        });
+        (event, probe)
+    }
+
+    /// (peers with an ongoing dial-back, sorted; ages in ms of the throttle entries with their peer)
+    #[doc(hidden)]
+    pub fn verif_server_state(&self) -> (Vec<PeerId>, Vec<(PeerId, u128)>) {
+        let mut ongoing: Vec<PeerId> = self.ongoing_inbound.keys().copied().collect();
+        ongoing.sort();
+        let now = web_time::Instant::now();
+        let throttled = self
+            .throttled_clients
+            .iter()
+            .map(|(p, t)| (*p, now.duration_since(*t).as_millis()))
+            .collect();
+        (ongoing, throttled)
+    }
+}
